@@ -271,7 +271,8 @@ namespace nmtools::array
                 auto out_shape_ = [&](){
                     using keepdims_type = decltype(view.keepdims);
                     if constexpr (is_none_v<keepdims_type>) {
-                        return out_shape;
+                        // keepdims=None means False (as in the view's own shape computation): the reduced axis is not in out_shape
+                        return index::insert_index(out_shape,1,reduction_axis);
                     } else {
                         if constexpr (!keepdims_type::value) {
                             return index::insert_index(out_shape,1,reduction_axis);
